@@ -333,6 +333,8 @@ func specIsCtl(m hsms.Message) bool {
 //@ loop 1 preserves [liveinflight] sr != nil && zzCalls("hsmsss.linktestFailureStep") == 1 && zzCalls("hsmsss.linktestDisconnectRecheck") == 0 ==>
 //@                             zzSeq("hsms.(TransportRuntime).WriteMessage") < zzSeq("hsmsss.(suppressionRuntime).DataMsgInflight") &&
 //@                             zzArg[int64]("hsmsss.linktestFailureStep", 3) == zzRet[int64]("hsmsss.(suppressionRuntime).DataMsgInflight")
+//@ loop 1 preserves [rule2]    sr != nil && zzCalls("hsmsss.(*ConnectionMetrics).incLinktestSend") == 1 && zzCalls("hsmsss.(*ConnectionMetrics).incLinktestErr") == 0 ==>
+//@                             zzCalls("hsmsss.(suppressionRuntime).DataMsgInflight") == 1 && zzRet[int64]("hsmsss.(suppressionRuntime).DataMsgInflight") <= 0
 //@ loop 1 preserves [stepanchor] zzCalls("hsmsss.linktestFailureStep") == 1 ==>
 //@                             zzArg[int64]("hsmsss.linktestFailureStep", 2) == zzRet[int64]("hsmsss.(*transport).monoNanos")
 //@ ensures [down] zzCalls("hsms.(TransportRuntime).TCPDown") <= 1
